@@ -70,19 +70,22 @@ BestBrute(x, y, sc) ==
 StartCost(sc, i, j) == Plus(Pen(sc.xp, i), Pen(sc.yp, j))
 EndCost(sc, m, n, i, j) == Plus(Pen(sc.xs, m - i), Pen(sc.ys, n - j))
 
+\* one cell <<S, I, D>> of column j at row i; prev: previous column (or << >> for j = 0);
+\* cur: cells of rows 0..i-1 of this column
+Cell(x, yj, sc, prev, cur, i, j) ==
+    LET st  == StartCost(sc, i, j)
+        iv  == IF i = 0 THEN NEG
+               ELSE Max2(Plus(cur[i][2], sc.ge), Plus(cur[i][1], sc.go + sc.ge))     \* from (i-1, j)
+        dv  == IF prev = << >> THEN NEG
+               ELSE Max2(Plus(prev[i + 1][3], sc.ge), Plus(prev[i + 1][1], sc.go + sc.ge))   \* from (i, j-1)
+        mv  == IF i = 0 \/ prev = << >> THEN NEG
+               ELSE Plus(prev[i][1], sc.S[x[i]][yj])                                  \* from (i-1, j-1)
+    IN  <<Max4(st, mv, iv, dv), iv, dv>>
+
 RECURSIVE ColFill(_, _, _, _, _, _, _)
-\* prev: previous column (or << >> for j = 0); cur: cells for rows 0..i-1 already built
 ColFill(x, yj, sc, prev, cur, i, j) ==
     IF i > Len(x) THEN cur
-    ELSE LET st  == StartCost(sc, i, j)
-             iv  == IF i = 0 THEN NEG
-                    ELSE Max2(Plus(cur[i][2], sc.ge), Plus(cur[i][1], sc.go + sc.ge))     \* from (i-1, j)
-             dv  == IF prev = << >> THEN NEG
-                    ELSE Max2(Plus(prev[i + 1][3], sc.ge), Plus(prev[i + 1][1], sc.go + sc.ge))   \* from (i, j-1)
-             mv  == IF i = 0 \/ prev = << >> THEN NEG
-                    ELSE Plus(prev[i][1], sc.S[x[i]][yj])                                  \* from (i-1, j-1)
-             sv  == Max4(st, mv, iv, dv)
-         IN  ColFill(x, yj, sc, prev, Append(cur, <<sv, iv, dv>>), i + 1, j)
+    ELSE ColFill(x, yj, sc, prev, Append(cur, Cell(x, yj, sc, prev, cur, i, j)), i + 1, j)
 
 RECURSIVE ColBest(_, _, _, _, _, _)
 ColBest(col, sc, m, n, j, i) ==
@@ -166,6 +169,15 @@ ClipLenY(ops) == LET RECURSIVE F(_)
                      F(k) == IF k > Len(ops) THEN 0 ELSE (IF ops[k][1] = 5 THEN ops[k][2] ELSE 0) + F(k + 1)
                  IN F(1)
 
+\* In semiglobal/local results the clip operations are filtered out. If a y clip stood between two Ins
+\* operations (or an x clip between two Del operations) the code charged a second gap opening (split
+\* convention); without the clip operation the place is not visible any more, so up to one extra opening
+\* per non-empty clipped end is accepted, provided a gap run of length >= 2 of the right kind exists.
+HasRun2(ops, code) == \E k \in 1..(Len(ops) - 1) : ops[k][1] = code /\ ops[k + 1][1] = code
+HiddenSplits(al, m, n) ==
+    (IF HasRun2(al.ops, 3) THEN (IF al.ystart > 0 THEN 1 ELSE 0) + (IF al.yend < n THEN 1 ELSE 0) ELSE 0)
+  + (IF HasRun2(al.ops, 2) THEN (IF al.xstart > 0 THEN 1 ELSE 0) + (IF al.xend < m THEN 1 ELSE 0) ELSE 0)
+
 \* clipsrequired: the operations must spell out the clipped ends (custom / global mode); otherwise
 \* (semiglobal / local, whose clip operations are documented to be filtered) clips may be absent
 ValidAlignment(al, x, y, sc, clipsrequired) ==
@@ -181,5 +193,10 @@ ValidAlignment(al, x, y, sc, clipsrequired) ==
        ELSE /\ ~clipsrequired /\ cx = 0 /\ cy = 0                      \* clips filtered: walk the aligned part
             /\ WalkOK(al.ops, 1, Sub(x, 0, al.xend), Sub(y, 0, al.yend),
                       al, al.xstart, al.ystart)
-    /\ (al.score = Rescore(al, x, y, sc, TRUE) \/ al.score = Rescore(al, x, y, sc, FALSE))
+    /\ \/ al.score = Rescore(al, x, y, sc, TRUE)
+       \/ al.score = Rescore(al, x, y, sc, FALSE)
+       \/ /\ ~clipsrequired                                   \* clip operations filtered out: a clip that stood
+          /\ ClipLenX(al.ops) = 0 /\ ClipLenY(al.ops) = 0      \* inside a gap run (split convention) is invisible
+          /\ \E t \in 1..HiddenSplits(al, Len(x), Len(y)) :
+                al.score = Rescore(al, x, y, sc, FALSE) + t * sc.go
 =============================================================================
